@@ -19,6 +19,7 @@ Print Assumptions C13_no_panic.
 Theorem C13_int_out_of_range_diagnosed : forall E m st dol len z, ~ (0 <= z <= 255) -> gen_ocode E m st dol len (OInt (Some z)) = BytesDiag [].
 Proof.
   intros E m st dol len z H. cbn [gen_ocode]. unfold in_range.
+  destruct (z =? 3) eqn:E3; [apply Z.eqb_eq in E3; exfalso; apply H; subst z; split; discriminate|].
   destruct (0 <=? z) eqn:A; destruct (z <=? 255) eqn:B; cbn [andb]; try reflexivity.
   apply Z.leb_le in A. apply Z.leb_le in B. exfalso. apply H. split; assumption.
 Qed.
